@@ -182,7 +182,7 @@ pub fn compare(m1: &mut Beatmap, m2: &mut Beatmap) -> Vec<(String, String)> {
 }
 
 /// Narrow classifiers of the recorded findings.
-fn known_class(m1: &mut Beatmap, class: &str, msg: &str) -> Option<&'static str> {
+fn known_class(m1: &mut Beatmap, text: &str, class: &str, msg: &str) -> Option<&'static str> {
     if (class == "general" && msg.starts_with("audio_file") && m1.audio_file.contains("//"))
         || (class == "events" && msg.starts_with("background_file") && m1.background_file.contains("//"))
     {
@@ -195,6 +195,25 @@ fn known_class(m1: &mut Beatmap, class: &str, msg: &str) -> Option<&'static str>
         });
         if over {
             return Some("natural-length-slider-longer-than-the-parse-limit");
+        }
+    }
+    // scroll speed exists only in taiko / mania and is decided when a timing line is parsed: a `Mode` record that
+    // follows a timing line comes too late for it (the encoder writes [General] first, so the second decode differs)
+    if class == "scroll-timeline" && matches!(m1.mode, GameMode::Taiko | GameMode::Mania) {
+        let mut seen_timing_line = false;
+        let mut cur = "";
+        for l in text.lines() {
+            let l = l.trim_end();
+            if let Some(n) = l.strip_prefix('[').and_then(|x| x.strip_suffix(']')) {
+                cur = n;
+                continue;
+            }
+            if cur == "TimingPoints" && !l.is_empty() {
+                seen_timing_line = true;
+            }
+            if cur == "General" && seen_timing_line && l.trim_start().starts_with("Mode") {
+                return Some("mode-declared-after-timing-points");
+            }
         }
     }
     None
@@ -251,7 +270,7 @@ pub fn check_c02(text: &str, acc: &mut Acc) {
         let diffs = compare(&mut m1, &mut m2);
         let classified: Vec<(String, String)> = diffs
             .into_iter()
-            .map(|(c, m)| match known_class(&mut m1, &c, &m) {
+            .map(|(c, m)| match known_class(&mut m1, text, &c, &m) {
                 Some(k) => (k.to_string(), m),
                 None => (c, m),
             })
@@ -650,6 +669,41 @@ pub fn text_families(tier: Tier) -> Vec<TextFamily> {
             }),
         });
     }
+    // (v) the same sections in every order (the mode may be declared after the lines it governs), [General] twice
+    {
+        let radices = vec![24u64, 4, 4, 2];
+        fams.push(TextFamily {
+            name: "four sections (General/Mode, Difficulty, TimingPoints, HitObjects) in every order x mode x an earlier [General] with another mode x version",
+            total: product(&radices),
+            gen: Box::new(move |idx| {
+                let mut d = Vec::new();
+                digits(idx, &radices, &mut d);
+                let (mode, first_mode, ver) = (d[1], d[2], [14, 7][d[3]]);
+                let blocks = [
+                    format!("[General]\nMode: {mode}\nSampleSet: Soft\n"),
+                    "[Difficulty]\nSliderMultiplier:1.7\nSliderTickRate:2\n".to_string(),
+                    "[TimingPoints]\n0,500,4,1,0,100,1,0\n1000,-50,4,2,0,60,0,1\n2500,-200,4\n".to_string(),
+                    "[HitObjects]\n100,100,1000,2,0,C|200:100|200:200|300:300,1,250\n100,100,3000,2,0,B|200:100|200:200,2,150\n64,192,5000,128,0,5400:0:0:0:0:\n256,192,6000,12,0,7000\n".to_string(),
+                ];
+                // d[0]-th permutation of the four blocks
+                let mut rest: Vec<usize> = vec![0, 1, 2, 3];
+                let mut k = d[0];
+                let mut order = Vec::new();
+                for f in [6usize, 2, 1, 1] {
+                    order.push(rest.remove(k / f));
+                    k %= f;
+                }
+                let mut s = format!("osu file format v{ver}\n");
+                if first_mode != mode {
+                    s.push_str(&format!("[General]\nMode: {first_mode}\n"));
+                }
+                for i in order {
+                    s.push_str(&blocks[i]);
+                }
+                s
+            }),
+        });
+    }
     // bundled files
     {
         let files: Vec<String> = crate::env::bundled_files().into_iter().map(|(_, b)| crate::env::text_of(&b)).collect();
@@ -755,7 +809,7 @@ pub fn run(tier: Tier) -> i32 {
         rule: "every input of the families (full-featured baseline file per mode/version with one (thorough: two) record replaced / \
                inserted / deleted from per-section alphabets incl. boundary and hostile-but-accepted values, chronological order kept; \
                all slider path token strings up to 4/5 tokens x requested-length classes; chronological timing-line triples x object \
-               pairs x modes x versions; hit-sound byte x extras x node counts; bundled files): M1 = decode(x), M2 = decode(encode(M1)) \
+               pairs x modes x versions; hit-sound byte x extras x node counts; four sections in every order x modes; bundled files): M1 = decode(x), M2 = decode(encode(M1)) \
                compared field by field exactly as the statement lists (SV-derived quantities to 8 ulp; requested length only if M1 has \
                one; excluded fields excluded). Inputs that are not chronological or contain consecutive explicit Catmull segments are \
                counted and skipped. distinct_nontrivial = distinct inputs with at least one hit object"
